@@ -16,17 +16,21 @@ CONSTANTS Names, Temps, MaxDefs, Emit, Hist, WalkLen,
           ProbeKinds,  \* kinds whose names are looked up (used) by Probe steps
           Vias,        \* how a definition reaches the VM: "inline" (in the request's own source), "include" (a file
                        \* loaded with include), "eval" (a string given to eval())
+          SharedProbes, \* TRUE: ProbeShared steps are generated
           EvalOnTemp   \* "refused" | "supported": whether eval() runs at all on a temporary VM (either is fine for
                        \* isolation; the harness probes the code once and tells the model)
 
 Kinds == {"class", "iface", "func"}
 Empty == [k \in Kinds |-> {}]
 
-VARIABLES base, temp, alive, act, hist
-vars == <<base, temp, alive, act, hist>>
+VARIABLES base, temp, alive, act, hist,
+          cached   \* deviation layer "ast-level-resolution-cache": <<kind, name>> pairs some shared piece of code has
+                   \* resolved once (node.CallLater / NewExpression keep what they resolved in the syntax tree)
+vars == <<base, temp, alive, act, hist, cached>>
 
-St == [base |-> base, temp |-> temp, alive |-> alive]
-St1 == [base |-> base', temp |-> temp', alive |-> alive']
+CachedNames(c) == {x[1] \o ":" \o x[2] : x \in c}
+St == [base |-> base, temp |-> temp, alive |-> alive, cached |-> CachedNames(cached)]
+St1 == [base |-> base', temp |-> temp', alive |-> alive', cached |-> CachedNames(cached')]
 
 NDefs == Cardinality({<<k, n>> \in Kinds \X Names : n \in base[k]})
          + Cardinality({<<t, k, n>> \in Temps \X Kinds \X Names : n \in temp[t][k]})
@@ -39,8 +43,8 @@ Table(b, tm, al) == [v \in VMs |-> [k \in Kinds |-> Resolve(b, tm, al, v, k)]]
 
 Init == /\ base = Empty /\ temp = [t \in Temps |-> Empty] /\ alive = [t \in Temps |-> FALSE]
         /\ act = [op |-> "init", vm |-> "", kind |-> "", name |-> "", via |-> "", ok |-> TRUE]
-        /\ hist = <<>>
-        /\ (Emit => PrintT(<<"INIT", ToJson(St)>>))
+        /\ hist = <<>> /\ cached = {}
+        /\ (Emit => PrintT(<<"INIT", ToJson([base |-> base, temp |-> temp, alive |-> alive, cached |-> {}])>>))
 
 Record == hist' = IF Hist THEN Append(hist, [act |-> act', table |-> Table(base', temp', alive')]) ELSE hist
 
@@ -54,7 +58,7 @@ DefineBase(k, n, via) ==
             /\ act' = [op |-> "define", vm |-> "base", kind |-> k, name |-> n, via |-> via, ok |-> FALSE]
        ELSE /\ base' = [base EXCEPT ![k] = @ \cup {n}]
             /\ act' = [op |-> "define", vm |-> "base", kind |-> k, name |-> n, via |-> via, ok |-> TRUE]
-  /\ UNCHANGED <<temp, alive>> /\ Record
+  /\ UNCHANGED <<temp, alive, cached>> /\ Record
 
 \* whichever way the definition arrives, it lands in the temporary VM only
 DefineTemp(t, k, n, via) ==
@@ -64,19 +68,19 @@ DefineTemp(t, k, n, via) ==
             /\ act' = [op |-> "define", vm |-> t, kind |-> k, name |-> n, via |-> via, ok |-> FALSE]
        ELSE /\ temp' = [temp EXCEPT ![t][k] = @ \cup {n}]
             /\ act' = [op |-> "define", vm |-> t, kind |-> k, name |-> n, via |-> via, ok |-> TRUE]
-  /\ UNCHANGED <<base, alive>> /\ Record
+  /\ UNCHANGED <<base, alive, cached>> /\ Record
 
 NewTemp(t) ==
   /\ ~alive[t]
   /\ alive' = [alive EXCEPT ![t] = TRUE] /\ temp' = [temp EXCEPT ![t] = Empty]
   /\ act' = [op |-> "new", vm |-> t, kind |-> "", name |-> "", via |-> "", ok |-> TRUE]
-  /\ UNCHANGED base /\ Record
+  /\ UNCHANGED <<base, cached>> /\ Record
 
 Discard(t) ==
   /\ alive[t]
   /\ alive' = [alive EXCEPT ![t] = FALSE] /\ temp' = [temp EXCEPT ![t] = Empty]
   /\ act' = [op |-> "discard", vm |-> t, kind |-> "", name |-> "", via |-> "", ok |-> TRUE]
-  /\ UNCHANGED base /\ Record
+  /\ UNCHANGED <<base, cached>> /\ Record
 
 \* code running on VM v uses name n (new n() / n() / interface lookup with autoload): it succeeds exactly
 \* when v resolves n, and -- found or not -- it changes what no VM resolves.  A failed lookup goes
@@ -84,9 +88,21 @@ Discard(t) ==
 Probe(v, k, n) ==
   /\ (IF v = "base" THEN TRUE ELSE alive[v])
   /\ act' = [op |-> "probe", vm |-> v, kind |-> k, name |-> n, via |-> "", ok |-> (n \in Resolve(base, temp, alive, v, k))]
+  /\ UNCHANGED <<base, temp, alive, cached>> /\ Record
+
+\* the same use of a name, written in code that was parsed ONCE on the base VM (a handler registered at start-up)
+\* and is executed by every request: what it resolves depends on the VM that runs it, not on who ran it before
+ProbeShared(v, k, n) ==
+  /\ SharedProbes /\ k \in {"class", "func"}
+  /\ (IF v = "base" THEN TRUE ELSE alive[v])
+  /\ LET ref == n \in Resolve(base, temp, alive, v, k) IN
+     /\ act' = [op |-> "probe-shared", vm |-> v, kind |-> k, name |-> n, via |-> "", ok |-> ref,
+                dev |-> (ref \/ <<k, n>> \in cached)]           \* what the cache deviation predicts
+     /\ cached' = IF ref \/ <<k, n>> \in cached THEN cached \cup {<<k, n>>} ELSE cached
   /\ UNCHANGED <<base, temp, alive>> /\ Record
 
 Step == \/ \E k \in Kinds, n \in Names, via \in Vias : DefineBase(k, n, via)
+        \/ \E v \in VMs, k \in Kinds, n \in Names : ProbeShared(v, k, n)
         \/ \E v \in VMs, k \in ProbeKinds, n \in Names : Probe(v, k, n)
         \/ \E t \in Temps, k \in Kinds, n \in Names, via \in Vias : DefineTemp(t, k, n, via)
         \/ \E t \in Temps : NewTemp(t) \/ Discard(t)
@@ -94,13 +110,13 @@ Step == \/ \E k \in Kinds, n \in Names, via \in Vias : DefineBase(k, n, via)
 Finish == /\ Hist /\ Len(hist) = WalkLen /\ act.op # "finish"
           /\ PrintT(<<"WALK", ToJson(hist)>>)
           /\ act' = [act EXCEPT !.op = "finish"]
-          /\ UNCHANGED <<base, temp, alive, hist>>
+          /\ UNCHANGED <<base, temp, alive, hist, cached>>
 
 Next == IF Hist /\ Len(hist) >= WalkLen THEN Finish ELSE Step
 Spec == Init /\ [][Next]_vars
 
 EmitEdge == (Emit /\ ~Hist) => PrintT(<<"EDGE", ToJson([from |-> St, act |-> act', to |-> St1])>>)
-View == <<base, temp, alive, hist>>
+View == <<base, temp, alive, hist, cached>>
 
 \* ---------------------------------------------------------------- properties
 TypeOK == /\ \A k \in Kinds : base[k] \subseteq Names
@@ -115,7 +131,7 @@ LifecycleIsLocal == [][\A t \in Temps : (act'.op \in {"new", "discard"} /\ act'.
                  \A v \in VMs \ {t}, k \in Kinds :
                     Resolve(base', temp', alive', v, k) = Resolve(base, temp, alive, v, k)]_vars
 \* using a name changes what no VM resolves
-ProbeIsPure == [][act'.op = "probe" => Table(base', temp', alive') = Table(base, temp, alive)]_vars
+ProbeIsPure == [][act'.op \in {"probe", "probe-shared"} => Table(base', temp', alive') = Table(base, temp, alive)]_vars
 \* everything defined on the base VM is resolvable through every live temp VM
 BaseVisibleEverywhere == \A t \in Temps, k \in Kinds : alive[t] => base[k] \subseteq Resolve(base, temp, alive, t, k)
 \* a fresh temp VM resolves exactly the base names
